@@ -65,6 +65,33 @@ impl Message for Tick {
     type Response = ();
 }
 
+/// Item of the harness-controlled stream an actor can be attached to.
+pub struct Item(pub i64);
+#[derive(Default)]
+pub struct StreamState {
+    pub ready: i64,
+    pub next: i64,
+    pub ended: bool,
+    pub waker: Option<std::task::Waker>,
+}
+pub struct HStream(pub std::sync::Arc<std::sync::Mutex<StreamState>>);
+impl futures::Stream for HStream {
+    type Item = Item;
+    fn poll_next(self: std::pin::Pin<&mut Self>, cx: &mut std::task::Context<'_>) -> std::task::Poll<Option<Item>> {
+        let mut g = self.0.lock().unwrap();
+        if g.ready > 0 {
+            g.ready -= 1;
+            g.next += 1;
+            std::task::Poll::Ready(Some(Item(g.next - 1)))
+        } else if g.ended {
+            std::task::Poll::Ready(None)
+        } else {
+            g.waker = Some(cx.waker().clone());
+            std::task::Poll::Pending
+        }
+    }
+}
+
 /// Broadcast messages for `register_child` / `send_to_children` (two buckets besides `()`).
 #[derive(Clone)]
 pub struct Bc(pub String, pub i64);
@@ -83,6 +110,8 @@ pub struct ActorScripts {
     pub sscr: Vec<Vec<Effect>>,
     pub pscr: Vec<Effect>,
     pub fscr: Vec<Effect>,
+    #[serde(default)]
+    pub iscr: Vec<Effect>,
 }
 
 #[derive(Default)]
@@ -96,6 +125,8 @@ pub struct World {
     pub bcasts: HashMap<String, i64>,
     /// unit broadcast copies handled per actor name
     pub units: HashMap<String, i64>,
+    /// harness-controlled streams per actor name
+    pub streams: HashMap<String, std::sync::Arc<std::sync::Mutex<StreamState>>>,
 }
 thread_local! { pub static WORLD: RefCell<World> = RefCell::new(World::default()); }
 
@@ -265,7 +296,7 @@ impl std::error::Error for ScriptedError {}
 /// Instances spawned by the registry (no scenario entry): one yield in started and in stopped.
 fn service_scripts() -> ActorScripts {
     let y = Effect { e: "yield".into(), n: 0, s: String::new() };
-    ActorScripts { sscr: vec![vec![y.clone()]], pscr: vec![y], fscr: vec![] }
+    ActorScripts { sscr: vec![vec![y.clone()]], pscr: vec![y], fscr: vec![], iscr: vec![] }
 }
 
 impl<const K: usize> Actor for H<K> {
@@ -287,6 +318,18 @@ impl<const K: usize> Actor for H<K> {
         let me = cur_task();
         let scr = WORLD.with(|w| w.borrow().scripts.get(&me).cloned().unwrap_or_else(service_scripts).pscr);
         let _ = self.callback(ctx, "p", scr).await;
+    }
+}
+impl<const K: usize> StreamHandler<Item> for H<K> {
+    async fn handle(&mut self, ctx: &mut Context<Self>, item: Item) {
+        let me = cur_task();
+        let scr = WORLD.with(|w| w.borrow().scripts.get(&me).cloned().unwrap_or_default().iscr);
+        self.work(ctx, Desc { m: (format!("s.{me}"), item.0), scr, src: "stream" }).await;
+    }
+    async fn finished(&mut self, ctx: &mut Context<Self>) {
+        let me = cur_task();
+        let scr = WORLD.with(|w| w.borrow().scripts.get(&me).cloned().unwrap_or_default().fscr);
+        let _ = self.callback(ctx, "f", scr).await;
     }
 }
 impl<const K: usize> RestartableActor for H<K> {}
